@@ -621,24 +621,9 @@ impl Array {
         if self.dimensions == dimensions {
             self
         } else {
-            let flatten_dimension_count = self.dimensions.len().saturating_sub(dimensions.len());
-
-            let op: SlicedOp = Box::new(move |output_slice, arrays| {
-                let stride = output_slice.len();
-                for (i, output) in output_slice.iter_mut().enumerate() {
-                    *output += arrays[0].iter().skip(i).step_by(stride).sum::<Float>();
-                }
-            });
-
-            Array::sliced_op(
-                vec![&self],
-                &op,
-                None,
-                &self.dimensions,
-                dimensions,
-                flatten_dimension_count + 1,
-                0,
-            )
+            let mut values = vec![0.0; dimensions.iter().product()];
+            flatten_slice(&mut values, dimensions, &self.values, &self.dimensions);
+            Array::from((dimensions.to_vec(), values))
         }
     }
 
@@ -794,6 +779,32 @@ impl Index<Vec<usize>> for Array {
 
     fn index(&self, indices: Vec<usize>) -> &Self::Output {
         &self.values[flatten_indices(&indices, &self.dimensions)]
+    }
+}
+
+/// Sums the `values` with the `dimensions` into the `output` with the `target` dimensions, which are aligned to the last
+/// dimension. Every value is added to the output at its index, taken as zero along the target dimensions of one.
+fn flatten_slice(output: &mut [Float], target: &[usize], values: &[Float], dimensions: &[usize]) {
+    for i in 0..values.len() {
+        // convert the index to the target index, starting from the last dimension
+        let mut remaining = i;
+        let mut target_index = 0;
+        let mut stride = 1;
+        for k in 0..dimensions.len() {
+            let dimension = dimensions[dimensions.len() - 1 - k];
+            let index = remaining % dimension;
+            remaining /= dimension;
+            if k < target.len() {
+                let target_dimension = target[target.len() - 1 - k];
+                if target_dimension != 1 {
+                    target_index += index * stride;
+                }
+
+                stride *= target_dimension;
+            }
+        }
+
+        output[target_index] += values[i];
     }
 }
 
